@@ -3,7 +3,7 @@
 // to write(), application callbacks, send() results and the sizes of both connection collections.
 //
 // case:  sim <tcp|tls> <opts> <events>
-//   opts   : k=v,k=v  with app=sync|async|router|none chunk=0|1 cont=0|1 inv=0|1 trace=0|1 autod=0|1 xlate=0|1 maxc=n maxk=n
+//   opts   : k=v,k=v  with app=sync|async|router|none chunk=0|1 cont=0|1 inv=0|1 trace=0|1 autod=0|1 xlate=0|1 maxc=n maxk=n nodisc=0|1 (no socket_disconnected_event handler registered)
 //   events : ';' separated
 //     A            accept a connection          Af  the filter refuses it      At  remote_endpoint() throws
 //     H<id>:<ec>   complete the TLS handshake   R<id>:<hex> deliver bytes to the pending read
@@ -43,7 +43,7 @@ static boost::system::error_code ec_of(std::string const& s)
 struct Opts
 {
   std::string app{"sync"};
-  bool chunk{false}, cont{false}, inv{false}, trace{false}, autod{false}, xlate{true};
+  bool chunk{false}, cont{false}, inv{false}, trace{false}, autod{false}, xlate{true}, nodisc{false};
   size_t maxc{1048576}, maxk{1048576};
   bool timeo{false};
 };
@@ -177,8 +177,9 @@ struct Sim
     server->set_connection_filter([this](boost::asio::ip::tcp::socket const&) { return filter_ok; });
     server->socket_connected_event([this](std::weak_ptr<HttpConn> weak)
       { int id = id_of(weak); app[id].conn = weak; say(id, "connected"); });
-    server->socket_disconnected_event([this](std::weak_ptr<HttpConn> weak)
-      { say(id_of(weak), "disconnected"); });
+    if (!o.nodisc)
+      server->socket_disconnected_event([this](std::weak_ptr<HttpConn> weak)
+        { say(id_of(weak), "disconnected"); });
     server->message_sent_event([this](std::weak_ptr<HttpConn> weak)
       { int id = id_of(weak); say(id, "sent"); if (auto c = weak.lock()) on_sent(id, c); });
     if (o.app == "router")
@@ -412,6 +413,7 @@ static std::string handle(std::string const& op, std::vector<std::string> const&
     else if (p[0] == "inv") o.inv = p[1] == "1";
     else if (p[0] == "trace") o.trace = p[1] == "1";
     else if (p[0] == "autod") o.autod = p[1] == "1";
+    else if (p[0] == "nodisc") o.nodisc = p[1] == "1";
     else if (p[0] == "xlate") o.xlate = p[1] == "1";
     else if (p[0] == "maxc") o.maxc = std::stoull(p[1]);
     else if (p[0] == "maxk") o.maxk = std::stoull(p[1]);
